@@ -372,3 +372,24 @@ PROPS["C19"] = dict(
              "handover(Swap/move)-then-destroy-former-holder"],
     assumptions=["merge model written from the property statement; at the root an empty object text leaves a non-empty object unchanged (keys the text omits)"],
 )
+
+# ------------------------------------------------------------------------------------------------ C20
+PROPS["C20"] = dict(
+    title="UpdateLazy is a faithful recursive object merge",
+    rule=("(target, source) pairs of valid duplicate-free texts: the 9x9 root kind matrix (x whitespace, x nesting variants); sources "
+          "derived from the target (overridden keys of any kind, nested objects recursed to depth 5, new keys in between and at the "
+          "end, {} values), with plain keys and with keys that need escapes spelled independently on both sides (raw, two-character, "
+          "\\uXXXX); prefix-related key families and objects of 100..200 members; unrelated generated documents; whitespace runs. "
+          "Both inputs are exact heap copies (ASan co-observes C11). Oracle: result accepted by the reference recogniser and equal "
+          "(ordered) to the model merge: target order kept, new keys appended in source order, keys matched by decoded bytes; "
+          "distinct = hash(target, source)"),
+    runs=[
+        dict(name="asan-hsw", src="lazy_harness.cpp", cfg="asan-hsw", env=ASAN_ENV),
+        dict(name="asan-wsm", src="lazy_harness.cpp", cfg="asan-wsm", env=ASAN_ENV),
+        dict(name="prod-dyn", src="lazy_harness.cpp", cfg="prod-dyn", env={}),
+    ],
+    require=["(target,source)-pairs", "pairs-with-escaped-keys", "pairs-where-one-key-is-spelled-differently-on-both-sides",
+             "pairs-with-nested-object-merge(depth>=2)", "pairs-appending-new-keys", "pairs-with->=100-members", "pairs-with-whitespace",
+             "pairs-with-empty-object-side", "pairs-with-prefix-related-keys"],
+    assumptions=["model merge written from the property statement and the documented update rule"],
+)
